@@ -19,7 +19,7 @@ EXCL = {}
 # affect their oracle; a new finding added here reaches every engine at once.
 # KF-pad-wide advertises a larger shape than it produces: whatever is stacked on it (a contraction, a
 # concatenate) fails to unify chunks or produces blocks of other shapes than advertised
-RAISES = ("KF-layout-drift-over-shuffle", "KF-minmax-empty", "KF-setitem-int-with-negstep", "KF-layout-drift-over-window-reduction", "KF-pad-wide", "KF-swv-over-higher-order-diff", "KF-reshape-zero-size", "KF-ufunc-where-0d-out")  # graph build / compute raises, graph not closed, or wrong block shapes
+RAISES = ("KF-layout-drift-over-shuffle", "KF-minmax-empty", "KF-setitem-int-with-negstep", "KF-layout-drift-over-window-reduction", "KF-pad-wide", "KF-swv-over-higher-order-diff", "KF-reshape-zero-size", "KF-ufunc-where-0d-out", "KF-roll-flat-trailing-unit-axes", "KF-zero-width-block-reductions")  # graph build / compute raises, graph not closed, or wrong block shapes
 VALUES = ("KF-tensordot-int-dtype", "KF-argext-ties-axis-none")  # computes, but differs from NumPy
 ALL = RAISES + VALUES
 
@@ -90,7 +90,37 @@ def _frozen_layout_over_window_reduction(prog, vals):
     for k, s in enumerate(prog["stmts"]):
         if s["op"] in ("broadcast_to", "reshape", "ravel", "sliding_window_view", "swv_reduce", "repeat", "pad") and any(depends(a) for a in s["args"]):
             return True
+        # a reduction tree whose depth is fixed from the advertised block count (explicit split_every)
+        if "split_every" in s and (L + k) not in red_over_swv and any(depends(a) for a in s["args"]):
+            return True
     return False
+
+
+@excl("KF-roll-flat-trailing-unit-axes")
+def _roll_flat_unit_axes(prog, vals):
+    """roll with axis=None (flatten, roll, reshape back) of an array of rank >= 3 whose last two axes have
+    length 1."""
+    return any(s["op"] == "roll" and s.get("axis") is None and a[0].ndim >= 3 and a[0].shape[-1] == 1 and a[0].shape[-2] == 1 and a[0].size > 1 for s, a, r in _stmts(prog, vals))
+
+
+@excl("KF-zero-width-block-reductions")
+def _zero_width_block_reductions(prog, vals):
+    """min/max/argmin/argmax/var/std downstream of a statement that builds a non-empty array out of zero-size
+    pieces (pad of a zero-size array, concatenate/stack with empty inputs): such arrays carry zero-width blocks."""
+    L = len(prog["leaves"])
+    src = {L + k for k, (s, a, r) in enumerate(_stmts(prog, vals)) if r.size > 0 and any(x.size == 0 for x in a)}
+    if not src:
+        return False
+
+    def reaches(v, seen):
+        if v in src:
+            return True
+        if v < L or v in seen:
+            return False
+        seen.add(v)
+        return any(reaches(a, seen) for a in prog["stmts"][v - L]["args"])
+
+    return any(s["op"] in ("min", "max", "argmin", "argmax", "var", "std") and any(reaches(a, set()) for a in s["args"]) for s in prog["stmts"])
 
 
 @excl("KF-swv-over-higher-order-diff")
@@ -119,6 +149,12 @@ def _swv_over_diff(prog, vals):
 
     for k, s in enumerate(prog["stmts"]):
         if s["op"] in ("getitem", "getitem_list", "take") and binary and reaches(s["args"][0], binary, set()):
+            src.add(L + k)
+    # and a balancing rechunk over any elementwise result (the rechunk is pushed through the elemwise and
+    # re-balanced against the operand): (y <= 0).rechunk((2, 2), balance=True) under a window
+    elem = {L + k for k, s in enumerate(prog["stmts"]) if fam(s["op"]) in ("elemwise", "elemwise2")}
+    for k, s in enumerate(prog["stmts"]):
+        if s["op"] in ("rechunk", "rechunk_auto") and s.get("balance") and elem and reaches(s["args"][0], elem, set()):
             src.add(L + k)
     if not src:
         return False
@@ -200,6 +236,11 @@ def _swv_over_shuffle(prog, vals):
         if s["op"] in ("sliding_window_view", "repeat", "broadcast_to", "swv_reduce"):
             up = [o for a in s["args"] for o in ancestors_ops(prog, a)]
             if any(o in ("shuffle", "take", "getitem_list") for o in up):
+                return True
+        # the other way round: the shuffle is pushed THROUGH a broadcast_to onto an elementwise combination
+        if s["op"] in ("shuffle", "take", "getitem_list"):
+            up = [o for a in s["args"] for o in ancestors_ops(prog, a)]
+            if "broadcast_to" in up:
                 return True
     return False
 
